@@ -1,5 +1,5 @@
 (* HISTORICAL RECORD (F7b was repaired in /repo 25be872: cfg_checks_total_reflection = true; the statements below are conditional on
-   the flag being false and are vacuous on the repaired tree; F7b_composed_outcome shows the witness is now Err ETotalReflection).
+   the flag being false and are vacuous on the repaired tree; F7b_composed_is_error shows the witness is now Err ETotalReflection).
    Finding F7b on the COMPOSED model (Model/Cfg_Composed.v: the oracle record instantiated with the generated C03/C04 kernels,
    every partial floating-point operation guarded by its definedness).  NOT imported by Props/; no check depends on this file.
    Witness: crystal angle "auto", no poling, pump 775 nm, signal 1550 nm given by the INTERNAL angle 90 deg, in a medium of
@@ -11,7 +11,7 @@
      - the hypothesis no_total_internal_reflection of the present C17_no_panic_composed is false on the witness. *)
 From Coq Require Import Reals Lra String List Bool.
 From SpdVerif Require Import Base.Rx Base.Vec3 Base.CfgNumOps Model.NumInst Spec.ConfigSpec Spec.ConfigUnits Gen.ConfigTables Gen.ConfigSites
-  Model.ConfigTypes Model.Config Model.Cfg_Composed Proofs.C16_round Proofs.C16_stable Proofs.C17_current Proofs.Cfg_composed.
+  Model.ConfigTypes Model.Config Model.Cfg_Composed Proofs.C16_round Proofs.C16_stable Proofs.Cfg_composed.
 Import ListNotations.
 Local Open Scope R_scope.
 
@@ -53,12 +53,12 @@ Qed.
 Lemma witness_wavelengths : cfg_le R_ops witness = false.
 Proof. unfold cfg_le. cbn. destruct (Rle_dec 1550 775); [exfalso; lra | reflexivity]. Qed.
 
-(* the composed model's outcome on the witness: the panic of F7b while try_as_spdc does not check the external angle
-   (cfg_checks_total_reflection = false, read off the source), the error the property asks for once it does *)
-Theorem F7b_composed_outcome minpos :
-  try_as_spdc_now R_ops UR KW minpos witness = if cfg_checks_total_reflection then Err ETotalReflection else Panic SiteNelderMeadUnwrap.
+(* the composed model's outcome on the witness: the error the property asks for once try_as_spdc checks the external angle
+   (cfg_checks_total_reflection = true: the repaired tree), the panic of F7b on a code with neither repair *)
+Theorem F7b_composed_is_error minpos rj :
+  cfg_checks_total_reflection = true -> try_as_spdc R_ops UR KW minpos rj true witness = Err ETotalReflection.
 Proof.
-  apply (tir_outcome_composed index2 snell_id sd_stop sd_stop UR minpos witness witness_signal).
+  intros Hf. apply (tir_is_error_composed index2 snell_id sd_stop sd_stop UR minpos rj witness witness_signal Hf).
   - exact witness_wavelengths.
   - exact witness_signal_step.
   - reflexivity.
@@ -66,20 +66,27 @@ Proof.
   - exact witness_beyond_tir.
 Qed.
 
-Theorem F7b_composed_panics minpos :
-  cfg_checks_total_reflection = false -> try_as_spdc_now R_ops UR KW minpos witness = Panic SiteNelderMeadUnwrap.
-Proof. intros Hf. rewrite F7b_composed_outcome, Hf. reflexivity. Qed.
-
-(* REFUTED while the code does not check: never panics given only a total Snell inverse (C17_no_panic_composed as it stood before
-   the guards) *)
-Theorem F7b_no_panic_composed_refuted :
-  cfg_checks_total_reflection = false ->
-  ~ (forall index_of snell_inv sd_theta sd_period U minpos (c : spdc_cfg R),
-       (forall b e cs, snell_inv b e cs <> None) ->
-       is_panic (try_as_spdc_now R_ops U (oracles_of_model index_of snell_inv sd_theta sd_period) minpos c) = false).
+Theorem F7b_composed_panics minpos rj :
+  cfg_checks_total_reflection = false -> searches_cannot_fail = false ->
+  try_as_spdc R_ops UR KW minpos rj true witness = Panic SiteNelderMeadUnwrap.
 Proof.
-  intros Hf H. specialize (H index2 snell_id sd_stop sd_stop UR 0 witness).
-  fold KW in H. rewrite (F7b_composed_panics 0 Hf) in H. cbn in H.
+  intros Hf Hn. apply (tir_panics_composed index2 snell_id sd_stop sd_stop UR minpos rj witness witness_signal Hf Hn).
+  - exact witness_wavelengths.
+  - exact witness_signal_step.
+  - reflexivity.
+  - reflexivity.
+  - exact witness_beyond_tir.
+Qed.
+
+(* REFUTED on a code with neither repair: never panics given only a total Snell inverse *)
+Theorem F7b_no_panic_composed_refuted :
+  cfg_checks_total_reflection = false -> searches_cannot_fail = false ->
+  ~ (forall index_of snell_inv sd_theta sd_period U minpos rj (c : spdc_cfg R),
+       (forall b e cs, snell_inv b e cs <> None) ->
+       is_panic (try_as_spdc R_ops U (oracles_of_model index_of snell_inv sd_theta sd_period) minpos rj true c) = false).
+Proof.
+  intros Hf Hn H. specialize (H index2 snell_id sd_stop sd_stop UR 0 false witness).
+  fold KW in H. rewrite (F7b_composed_panics 0 false Hf Hn) in H. cbn in H.
   assert (Hs : forall b e cs, snell_id b e cs <> None) by (intros; discriminate).
   specialize (H Hs). discriminate H.
 Qed.
@@ -91,4 +98,4 @@ Proof.
   fold KW in H. rewrite witness_beyond_tir in H. discriminate H.
 Qed.
 
-Print Assumptions F7b_composed_panics.
+Print Assumptions F7b_composed_is_error.
